@@ -295,9 +295,12 @@ def run_impl(modname, fname, cases, isolate=True, procs=NCPU):
     os.environ['PYTHONHASHSEED'] = '0'
     ctx = mp.get_context('spawn')
     chunk = max(1, min(64, len(cases) // (procs * 4) or 1))
-    with ctx.Pool(min(procs, max(1, len(cases))), initializer=_pool_init,
-                  initargs=(modname, fname, isolate)) as pool:
-        out = pool.map(_pool_call, cases, chunksize=chunk)
+    # ProcessPoolExecutor (not mp.Pool): a worker that dies breaks the pool with
+    # an exception instead of hanging the check forever
+    with cf.ProcessPoolExecutor(min(procs, max(1, len(cases))), mp_context=ctx,
+                                initializer=_pool_init,
+                                initargs=(modname, fname, isolate)) as pool:
+        out = list(pool.map(_pool_call, cases, chunksize=chunk))
     res = []
     for tag, val in out:
         if tag != 'ok':
